@@ -161,7 +161,39 @@ func VerifC17_PrintParse() {
 	verifCover("end")
 }
 
+// VerifC17_PrintParseLong: parts at their length limits: repositories of 245..256 bytes
+// and tags of 127..129 bytes (mostly 'a', two symbolic bytes each) under every host of
+// the menu. Valid parts (repository <= 255, tag <= 128) print to a string that parses
+// back to the same parts; over-long parts are rejected by their own predicates / limit.
+func VerifC17_PrintParseLong() {
+	hosts := []string{"h.io", "localhost:5000", "[::1]:80", "example.com"}
+	host := hosts[verifChoose("host", len(hosts))]
+	rlen := []int{200, 245, 250, 254, 255, 256}[verifChoose("repoLen", 6)]
+	repo := verifStringN("r0", 1) + strings.Repeat("a", rlen-2) + verifStringN("r1", 1)
+	ref := Reference{Host: host, Repository: repo}
+	if tl := []int{0, 1, 127, 128, 129}[verifChoose("tagLen", 5)]; tl == 1 {
+		ref.Tag = verifStringN("t0", 1)
+	} else if tl > 1 {
+		ref.Tag = verifStringN("t0", 1) + strings.Repeat("b", tl-2) + verifStringN("t1", 1)
+	}
+	if verifBool("hasDigest") {
+		ref.Digest = Digest("sha256:" + strings.Repeat("b", 64))
+	}
+	valid := c17partsValid(ref)
+	got, err := Parse(ref.String())
+	if valid {
+		verifAssert(err == nil, "valid-parts-print-to-a-parsable-string")
+		verifAssert(err != nil || got == ref, "print-then-parse-is-identity")
+		verifCover("valid")
+	} else if err == nil {
+		// it parsed as something: then as different, individually valid parts
+		verifAssert(got != ref && c17partsValid(got), "invalid-parts-never-parse-back-as-themselves")
+	}
+	verifCover("end")
+}
+
 func init() {
+	verifRegister("VerifC17_PrintParseLong", VerifC17_PrintParseLong)
 	verifRegister("VerifC17_TagTotal", VerifC17_TagTotal)
 	verifRegister("VerifC17_TagLong", VerifC17_TagLong)
 	verifRegister("VerifC17_ValidatorsTotal", VerifC17_ValidatorsTotal)
